@@ -392,7 +392,7 @@ def answer_evaluated(rec, spec):
     x, f = raw_answer(b, spec)
     if f is None:        # grid search without full output: brute returns the best grid point
         return any(np.array_equal(q, x) for q in b['queries'])
-    return any(np.array_equal(q, x) and v == f for q, v in zip(b['queries'], b['values']))
+    return any(np.array_equal(q, x) and abs(v - f) <= VTOL * max(abs(v), abs(f)) for q, v in zip(b['queries'], b['values']))
 
 def describe(spec):
     d = {k: spec.get(k) for k in ('p0', 'lower', 'upper', 'fixed', 'multinom', 'll_scale', 'maxiter', 'log_opt', 'algorithm', 'full_output', 'grid')
@@ -463,6 +463,8 @@ def k_trace(chk, ctx, spec, pb, rec, calls, xret, fret, verdict, scale):
             for q in list(b['queries']) + [xraw] + [np.array(list(logt.values()))]:
                 for x in np.asarray(q, dtype=float).ravel():
                     expt[float(x)] = float(np.exp(np.float64(x)))
+    if not all(math.isfinite(v) for v in expt.values()):
+        chk.k_skipped += 1; chk.stat('trace_exp_overflow_skipped'); return      # the optimiser stepped to exp(x) = inf
     head = '%s %s %s %s %s %s %s %s %s' % (tn, tok_vec(p0), tok_bounds(spec.get('lower')), tok_bounds(spec.get('upper')),
                                            tok_bounds(spec['fixed']), rat(scale), tok_vecs(b['queries']), tok_vec(xraw), rat(fraw))
     tail = '%s %s %s %s' % (tok_tab(expt), tok_tab(logt), rat(Fraction(1, 10 ** 9)), rat(Fraction(1, 10 ** 9)))
